@@ -19,11 +19,31 @@ def spacing (x : Float) : Float :=
 
 def optF (s : String) : Option (Option Float) := if s == "none" then some none else (parseFloat s).map some
 
-partial def parseEvents : Nat → List String → Option (List (EventSpec Float) × List String)
+/-- event function kinds of the line protocol: a plain number `c` is g(τ) = τ − c; `q:a:b` is (τ − a)·(τ − b);
+`k:c:κ` is (τ − c)·(1 + κ·((τ − c)·(τ − c))) — evaluated with exactly the operations the harness's Python functions perform -/
+inductive EvKind where
+  | lin (c : Float) | quad (a b : Float) | cub (c k : Float)
+
+def EvKind.eval : EvKind → Float → Float
+  | .lin c, τ => τ - c
+  | .quad a b, τ => (τ - a) * (τ - b)
+  | .cub c k, τ => (τ - c) * (1.0 + k * ((τ - c) * (τ - c)))
+
+def EvKind.isLin : EvKind → Bool | .lin _ => true | _ => false
+
+def parseKind (s : String) : Option EvKind :=
+  match s.splitOn ":" with
+  | ["q", a, b] => do let a ← parseFloat a; let b ← parseFloat b; some (.quad a b)
+  | ["k", c, k] => do let c ← parseFloat c; let k ← parseFloat k; some (.cub c k)
+  | [c] => (parseFloat c).map .lin
+  | _ => none
+
+partial def parseEvents : Nat → List String → Option (List (EventSpec Float × EvKind) × List String)
   | 0, rest => some ([], rest)
   | n + 1, c :: d :: t :: rest => do
-      let c ← parseFloat c; let d ← parseInt d; let (es, rest') ← parseEvents n rest
-      some (⟨c, d, t == "1"⟩ :: es, rest')
+      let k ← parseKind c; let d ← parseInt d; let (es, rest') ← parseEvents n rest
+      let c0 := match k with | .lin c => c | .quad a _ => a | .cub c _ => c
+      some ((⟨c0, d, t == "1"⟩, k) :: es, rest')
   | _, _ => none
 
 partial def parsePairs : List String → Option (List (Float × Float))
@@ -47,7 +67,10 @@ def step (ws : List String) : String :=
             | some script =>
               let E : RodasEnv Float :=
                 { O := floatO, spacing := spacing, uround := spacing 1.0, tiny := 1e-6, half := 0.5, c128 := 128.0, fixSlack := 1.0 + 1e-8,
-                  tspan := tspan, opt := ⟨f1, f2, fm, hi, hm, fx == "1", ed⟩, events := evs }
+                  tspan := tspan, opt := ⟨f1, f2, fm, hi, hm, fx == "1", ed⟩, events := evs.map (·.1),
+                  -- all components linear: the `τ − c` reading of the model; otherwise the general event functions
+                  gfun := if evs.all (·.2.isLin) then none
+                          else some fun i τ => match (evs.map (·.2))[i]? with | some k => k.eval τ | none => 0.0 }
               let s := E.run script E.init
               s!"T {s.T.length} {showFloats s.T.reverse} te {s.te.length} {showFloats s.te.reverse} ie " ++
                 " ".intercalate (s.ie.reverse.map toString) ++
